@@ -12,6 +12,18 @@ def _alarm(*a):
     raise _TO()
 
 
+def arm(seconds):
+    """CPU-time limit of one call (ITIMER_PROF) with a wall-clock backstop: machine load never becomes a 'timeout' observation"""
+    signal.signal(signal.SIGPROF, _alarm)
+    signal.setitimer(signal.ITIMER_PROF, seconds)
+    signal.alarm(int(seconds * 24))
+
+
+def disarm():
+    signal.setitimer(signal.ITIMER_PROF, 0)
+    signal.alarm(0)
+
+
 def exc_key(e, tb=None):
     """(exception type, innermost miasmx function, normalised source line) - one root cause = one key"""
     tb = tb or e.__traceback__
@@ -56,7 +68,7 @@ def dis_one(b, att=False, want_row=False):
         _init()
     r = {'b': list(b)}
     stage = 'dis'
-    signal.alarm(5)
+    arm(5)
     try:
         try:
             ins = _mn.dis(bytes(b))
@@ -76,7 +88,7 @@ def dis_one(b, att=False, want_row=False):
             r.update(instr_abs.instr_to_abs(ins, text))
             r['st'] = 'instr'
         finally:
-            signal.alarm(0)
+            disarm()
     except _TO:
         r['st'] = 'timeout'
         r['stage'] = stage
